@@ -98,7 +98,7 @@ func runC10On(c *Ctx, r *Report, pkgRel string, extra []*ssa.Function, control b
 			r.instance("R10.1", 1)
 		}
 		seen := map[string]bool{}
-		for _, o := range an.obligs {
+		for _, o := range failFirst(an.obligs) {
 			rule := "R10.1"
 			if o.kind == "assert" {
 				rule = "R10.2"
@@ -150,7 +150,8 @@ func runC10On(c *Ctx, r *Report, pkgRel string, extra []*ssa.Function, control b
 					}
 				}
 				// (b) err == nil => value non-nil
-				bad2 := dnfAnd(dnfAnd(st, errNil.dnf(false)), fr.nilness(vv).dnf(false))
+				// (a value that is an interface holding a nil pointer counts as nil: every method call on it panics)
+				bad2 := dnfAnd(dnfAnd(st, errNil.dnf(false)), valNil.dnf(false))
 				okB := true
 				for _, cj := range bad2 {
 					if !infeasible(cj.with(an.global...)) {
@@ -230,4 +231,22 @@ func init() {
 			}
 		}
 	}
+}
+
+// failFirst orders obligations so that failed ones come first. The same instruction of a helper
+// is evaluated once per call context; where reports are de-duplicated by (description, position)
+// a context in which the obligation fails must not be hidden by one in which it holds.
+func failFirst(obs []*Oblig) []*Oblig {
+	out := make([]*Oblig, 0, len(obs))
+	for _, o := range obs {
+		if !o.ok {
+			out = append(out, o)
+		}
+	}
+	for _, o := range obs {
+		if o.ok {
+			out = append(out, o)
+		}
+	}
+	return out
 }
